@@ -19,6 +19,14 @@ type C01Params struct {
 	Callers []Caller    `json:"callers"`
 }
 
+// callerName is stable under deletion of other callers (minimisation).
+func callerName(i int, cl Caller) string {
+	if len(cl.Calls) > 0 {
+		return fmt.Sprintf("caller.c%d", cl.Calls[0])
+	}
+	return fmt.Sprintf("caller.idle%d", i)
+}
+
 var payloadSizes = []int{0, 1, 12, 100, 4096, 65536}
 
 func drawSize(g *rand.Rand) int {
@@ -119,7 +127,7 @@ func execC01(e *Env, pp any) {
 	net := Build(e, p.Topo, srv, nil)
 	for i, cl := range p.Callers {
 		cl := cl
-		e.Go(fmt.Sprintf("caller%d", i), func() {
+		e.Go(callerName(i, cl), func() {
 			for _, id := range cl.Calls {
 				sim.RunCall(net.CCs[cl.Conn%len(net.CCs)], sim.Calls[id])
 			}
